@@ -423,4 +423,5 @@ package db
 //@ guarded [C14 kv-state-accessed-under-the-db-lock] kv: secrets, gen by mu of DB
 //@ nocall [C04,C05 no-inplace-write] in db: os.WriteFile, os.Create, os.OpenFile, os.Rename, os.Truncate, os.Remove, (*os.File).Write, (*os.File).WriteString
 //@ callers [C04,C05 atomic-writer] tailscale.com/atomicfile.WriteFile only-from (*db.kv).save, (client/setec.FileCache).Write
+//@ callers [C05 the-kek-is-consulted-only-when-opening] db.openOrCreateKV only-from db.Open
 //@ callers [C03,C04 save-callers] (*db.kv).save only-from db.newKV, (*db.kv).put, (*db.kv).setActive, (*db.kv).deleteVersion, (*db.kv).deleteSecret
